@@ -209,7 +209,15 @@ where
             #[cfg(feature = "tracing")]
             debug!(coalesce = %name, "Request executing as leader");
 
+            // We are registered as the leader from here on, but the future that
+            // releases the key on drop does not exist yet: if `inner.call` panics,
+            // release it here, or every later request for this key waits forever.
+            let registration = LeaderRegistration {
+                in_flight: &self.in_flight,
+                key: &key,
+            };
             let future = self.inner.call(request);
+            std::mem::forget(registration);
             let in_flight = Arc::clone(&self.in_flight);
 
             CoalesceFuture::Leading {
@@ -218,6 +226,29 @@ where
                 in_flight,
             }
         }
+    }
+}
+
+/// Releases a freshly registered leader key if `inner.call()` unwinds before the
+/// [`CoalesceFuture`] that normally owns the key has been built.
+struct LeaderRegistration<'a, K, Res, E>
+where
+    K: Hash + Eq + Clone,
+    Res: Clone,
+    E: Clone,
+{
+    in_flight: &'a InFlight<K, Res, E>,
+    key: &'a K,
+}
+
+impl<K, Res, E> Drop for LeaderRegistration<'_, K, Res, E>
+where
+    K: Hash + Eq + Clone,
+    Res: Clone,
+    E: Clone,
+{
+    fn drop(&mut self) {
+        self.in_flight.cancel(self.key);
     }
 }
 
